@@ -137,6 +137,19 @@ def check_helpers(a, b, ordered_union, ordered_intersect, ordered_diff):
     got = {"union": list(ordered_union(a, b)), "intersect": list(ordered_intersect(a, b)), "diff": list(ordered_diff(a, b))}
     if got != exp:
         return "a=%r b=%r: helpers %r, spec %r" % (a, b, got, exp)
+    # the same with OrderedSet / tuple arguments; arguments must come back unchanged and the result must be a new object
+    from data_algebra.OrderedSet import OrderedSet
+    for wrap_a in (OrderedSet, tuple):
+        for wrap_b in (OrderedSet, tuple):
+            for fname, fn in (("union", ordered_union), ("intersect", ordered_intersect), ("diff", ordered_diff)):
+                xa, xb = wrap_a(a), wrap_b(b)
+                r = fn(xa, xb)
+                if list(r) != exp[fname]:
+                    return "a=%s%r b=%s%r: %s gives %r, spec %r" % (wrap_a.__name__, a, wrap_b.__name__, b, fname, list(r), exp[fname])
+                if list(xa) != (da if wrap_a is OrderedSet else list(a)) or list(xb) != (db if wrap_b is OrderedSet else list(b)):
+                    return "a=%s%r b=%s%r: %s modified an argument (now %r / %r)" % (wrap_a.__name__, a, wrap_b.__name__, b, fname, list(xa), list(xb))
+                if r is xa or r is xb:
+                    return "a=%s%r b=%s%r: %s returned one of its arguments" % (wrap_a.__name__, a, wrap_b.__name__, b, fname)
     return None
 
 
